@@ -638,8 +638,239 @@ theorem nameBody_plain (nm : Bytes) (h : PlainName nm) (b : UInt8) (r : Bytes) (
 
 theorem kw_slash : strBytes "/" = [47] := by decide +kernel
 
+/-! ### the `/CIDSystemInfo` dictionary -/
+
+def PNonWs (x : UInt8) : Prop := WHITESPACE.contains x = false ∧ x ≠ 37
+
+theorem pdfSpaceGo_ps {w : Bytes} (h : PS w) : ∀ (fuel : Nat) (x : UInt8) (r : Bytes), PNonWs x → w.length < fuel →
+    pdfSpaceGo fuel (w ++ x :: r) = x :: r := by
+  induction h with
+  | nil =>
+    intro fuel x r hx hf
+    match fuel, hf with
+    | f + 1, _ => simp only [List.nil_append, pdfSpaceGo, hx.1, Bool.false_eq_true, if_false, hx.2]
+  | ws b bs hb _ ih =>
+    intro fuel x r hx hf
+    match fuel, hf with
+    | f + 1, hf =>
+      have hc : WHITESPACE.contains b = true := by rcases hb with rfl | rfl | rfl | rfl | rfl | rfl <;> decide
+      simp only [List.cons_append, pdfSpaceGo, hc, if_true]
+      exact ih f x r hx (by simp at hf; omega)
+  | comment body e bs hbody he _ ih =>
+    intro fuel x r hx hf
+    match fuel, hf with
+    | f + 1, hf =>
+      have e1 : (37 :: body ++ e :: bs) ++ x :: r = 37 :: (body ++ e :: (bs ++ x :: r)) := by simp
+      have h37 : WHITESPACE.contains (37 : UInt8) = false := by decide
+      rw [e1]
+      simp only [pdfSpaceGo, h37, Bool.false_eq_true, if_false, if_true, skipToEol_body body e _ hbody he]
+      exact ih f x r hx (by simp at hf; omega)
+
+theorem pdfSpace_ps (w : Bytes) (x : UInt8) (r : Bytes) (h : PS w) (hx : PNonWs x) : pdfSpace (w ++ x :: r) = x :: r := by
+  unfold pdfSpace
+  exact pdfSpaceGo_ps h _ x r hx (by simp only [List.length_append, List.length_cons]; omega)
+
+theorem nameBody_stop (nm : Bytes) (h : PlainName nm) (b : UInt8) (r : Bytes) (hb : CMap.isRegular b = false) :
+    nameBody (nm ++ b :: r) = b :: r := by
+  have h35 : ¬ (b = 35) := by intro e; subst e; revert hb; decide
+  induction nm with
+  | nil =>
+    rw [List.nil_append]
+    unfold nameBody
+    simp only [h35, if_false, hb, Bool.false_eq_true]
+  | cons c cs ih =>
+    obtain ⟨h1, h2⟩ := h c List.mem_cons_self
+    rw [List.cons_append]
+    unfold nameBody
+    simp only [h2, if_false, h1, if_true]
+    exact ih (fun x hx => h x (List.mem_cons_of_mem _ hx))
+
+/-- first byte of PDF white space, or of what follows it, is not regular -/
+theorem ps_head_nonregular (sp : Bytes) (x : UInt8) (r : Bytes) (hsp : PS sp) (hx : CMap.isRegular x = false) :
+    ∃ b t, sp ++ x :: r = b :: t ∧ CMap.isRegular b = false ∧ isDigit b = false := by
+  have hxd : isDigit x = false := by
+    revert hx; revert x
+    have : ∀ x : UInt8, CMap.isRegular x = false → isDigit x = false := by apply Lopdf.forall_uint8; decide +kernel
+    exact this
+  cases hsp with
+  | nil => exact ⟨x, r, rfl, hx, hxd⟩
+  | ws b bs hb _ =>
+    exact ⟨b, bs ++ x :: r, rfl, by rcases hb with rfl | rfl | rfl | rfl | rfl | rfl <;> decide,
+      by rcases hb with rfl | rfl | rfl | rfl | rfl | rfl <;> decide⟩
+  | comment body e bs _ _ _ => exact ⟨37, body ++ e :: bs ++ x :: r, by simp, by decide, by decide⟩
+
+theorem simpleLit_d (cs : Bytes) (r : Bytes) (h : ∀ c ∈ cs, c ≠ 40 ∧ c ≠ 41 ∧ c ≠ 92 ∧ c ≠ 13 ∧ c ≠ 10) :
+    simpleLit (cs ++ 41 :: r) = some r := by
+  induction cs with
+  | nil => simp [simpleLit]
+  | cons c cs ih =>
+    obtain ⟨h1, h2, h3, h4, h5⟩ := h c List.mem_cons_self
+    have hn : NOT_DIRECT_LITERAL.contains c = false := by
+      simp [NOT_DIRECT_LITERAL, h1, h2, h3, h4, h5]
+    simp only [List.cons_append, simpleLit, h2, if_false, hn, Bool.false_eq_true]
+    exact ih (fun x hx => h x (List.mem_cons_of_mem _ hx))
+
+/-- what may follow an entry: the `/` of the next key or the closing `>>` -/
+def EntryStop (x : UInt8) : Prop := x = 47 ∨ x = 62
+
+theorem entryStop_facts {x : UInt8} (h : EntryStop x) :
+    PNonWs x ∧ CMap.isRegular x = false ∧ isDigit x = false ∧ x ≠ 46 ∧ NonWs x := by
+  rcases h with rfl | rfl <;> (unfold PNonWs NonWs; decide)
+
+theorem psimpleValue_d {v : Bytes} (h : DSimpleValue v) (sp : Bytes) (x : UInt8) (r : Bytes) (hsp : PS sp)
+    (hx : EntryStop x) : psimpleValue (v ++ (sp ++ x :: r)) = .ok () (x :: r) := by
+  obtain ⟨hp, hreg, hxd, hx46, _⟩ := entryStop_facts hx
+  match h with
+  | .lit cs hcs =>
+    have e : 40 :: cs ++ [41] ++ (sp ++ x :: r) = 40 :: (cs ++ 41 :: (sp ++ x :: r)) := by simp
+    rw [e]
+    simp only [psimpleValue, if_true, simpleLit_d cs _ hcs, pdfSpace_ps sp x r hsp hp]
+  | .int n hn =>
+    obtain ⟨d, u, hdu, hd⟩ := digits_head n (sp ++ x :: r) hn
+    obtain ⟨b, t, hbt, _, hbd⟩ := ps_head_nonregular sp x r hsp hreg
+    have htd : takeDigits (n ++ (sp ++ x :: r)) = sp ++ x :: r := by
+      rw [hbt]; exact takeDigits_digits n b t hn.1 hbd
+    have h40 : ¬ (d = 40) := by intro e; subst e; simp [isDigit] at hd
+    rw [hdu]
+    simp only [psimpleValue, h40, if_false, hd, if_true]
+    rw [← hdu, htd, pdfSpace_ps sp x r hsp hp]
+    simp [hxd, hx46]
+  | .name nm hnm =>
+    obtain ⟨b, t, hbt, hbr, _⟩ := ps_head_nonregular sp x r hsp hreg
+    have h40 : ¬ ((47 : UInt8) = 40) := by decide
+    have hd47 : isDigit 47 = false := by decide
+    have e : 47 :: nm ++ (sp ++ x :: r) = 47 :: (nm ++ (sp ++ x :: r)) := by simp
+    rw [e]
+    simp only [psimpleValue, h40, if_false, hd47, Bool.false_eq_true, if_true]
+    rw [hbt, nameBody_stop nm hnm b t hbr, ← hbt, pdfSpace_ps sp x r hsp hp]
+
+theorem kw_slash' : strBytes "/" = [47] := by decide +kernel
+theorem t_slash (t : Bytes) : ptagS "/" (47 :: t) = .ok () t := by
+  have := ptagS_append "/" t; rwa [kw_slash'] at this
+
+theorem value_head {v : Bytes} (h : DSimpleValue v) (t : Bytes) :
+    ∃ c u, v ++ t = c :: u ∧ PNonWs c ∧ (CMap.isRegular c = true → isDigit c = true) := by
+  match h with
+  | .lit cs _ => exact ⟨40, cs ++ [41] ++ t, by simp, by unfold PNonWs; decide, by decide⟩
+  | .int n hn =>
+    obtain ⟨d, u, e, hd⟩ := digits_head n t hn
+    refine ⟨d, u, e, ?_, fun _ => hd⟩
+    have : ∀ d : UInt8, isDigit d = true → WHITESPACE.contains d = false ∧ d ≠ 37 := by
+      apply Lopdf.forall_uint8; decide +kernel
+    exact this d hd
+  | .name nm _ => exact ⟨47, nm ++ t, by simp, by unfold PNonWs; decide, by decide⟩
+
+/-- **an entry of the `/CIDSystemInfo` dictionary, every spelling** -/
+theorem pdictEntry_d {bs : Bytes} (h : DDictEntry bs) (x : UInt8) (r : Bytes) (hx : EntryStop x) :
+    pdictEntry (bs ++ x :: r) = .ok () (x :: r) := by
+  cases h with
+  | mk nm sp1 v sp2 hnm hsp1 hv hsep hsp2 =>
+    obtain ⟨c, u, hcu, hcp, hcreg⟩ := value_head hv (sp2 ++ x :: r)
+    have e : 47 :: nm ++ sp1 ++ v ++ sp2 ++ x :: r = 47 :: (nm ++ (sp1 ++ (v ++ (sp2 ++ x :: r)))) := by simp
+    -- the name stops at the white space, or at the delimiter that starts the value
+    have hstop : ∃ b t, sp1 ++ (v ++ (sp2 ++ x :: r)) = b :: t ∧ CMap.isRegular b = false := by
+      cases hsp1 with
+      | nil =>
+        rcases hsep with h | ⟨t, ht⟩ | ⟨t, ht⟩
+        · exact absurd rfl h
+        · subst ht; exact ⟨40, t ++ (sp2 ++ x :: r), by simp, by decide⟩
+        · subst ht; exact ⟨47, t ++ (sp2 ++ x :: r), by simp, by decide⟩
+      | ws b bs hb _ =>
+        exact ⟨b, bs ++ (v ++ (sp2 ++ x :: r)), by simp, by rcases hb with rfl | rfl | rfl | rfl | rfl | rfl <;> decide⟩
+      | comment body e' bs _ _ _ => exact ⟨37, body ++ e' :: bs ++ (v ++ (sp2 ++ x :: r)), by simp, by decide⟩
+    obtain ⟨b, t, hbt, hbr⟩ := hstop
+    rw [e]
+    unfold pdictEntry pname
+    simp only [t_slash, PR.bind]
+    rw [hbt, nameBody_stop nm hnm b t hbr, ← hbt, hcu, pdfSpace_ps sp1 c u hsp1 hcp, ← hcu]
+    exact psimpleValue_d hv sp2 x r hsp2 hx
+
+theorem entry_head {bs : Bytes} (h : DDictEntry bs) : ∃ t, bs = 47 :: t := by
+  cases h with
+  | mk nm sp1 v sp2 _ _ _ _ _ => exact ⟨nm ++ sp1 ++ v ++ sp2, by simp⟩
+
+theorem pdictEntry_stop (t : Bytes) : pdictEntry (62 :: t) = .error := by
+  have : ptagS "/" (62 :: t) = .error := ptagS_head_ne "/" 47 [] kw_slash' (by decide) t
+  simp [pdictEntry, pname, this, PR.bind]
+
+/-- the entries up to `>>` -/
+theorem many0Go_entries {el : List Unit} {bs : Bytes} (h : DList (fun (_ : Unit) => DDictEntry) el bs) :
+    ∀ (fuel : Nat) (t : Bytes), el.length ≤ fuel → many0Go pdictEntry fuel (bs ++ 62 :: t) = .ok el (62 :: t) := by
+  induction h with
+  | nil =>
+    intro fuel t _
+    cases fuel with
+    | zero => rfl
+    | succ f => simp [many0Go, pdictEntry_stop]
+  | cons a as b bs ha hrest ih =>
+    intro fuel t hf
+    cases fuel with
+    | zero => simp at hf
+    | succ f =>
+      have hnext : ∃ x u, bs ++ 62 :: t = x :: u ∧ EntryStop x := by
+        cases hrest with
+        | nil => exact ⟨62, t, rfl, Or.inr rfl⟩
+        | cons a' as' b' bs' ha' _ =>
+          obtain ⟨u, hu⟩ := entry_head ha'
+          exact ⟨47, u ++ bs' ++ 62 :: t, by rw [hu]; simp, Or.inl rfl⟩
+      obtain ⟨x, u, hxu, hx⟩ := hnext
+      obtain ⟨v, hv⟩ := entry_head ha
+      have e0 : b ++ bs ++ 62 :: t = b ++ (bs ++ 62 :: t) := by simp
+      rw [e0, hxu]
+      simp only [many0Go, pdictEntry_d ha x u hx]
+      have hlen : ¬ (x :: u).length ≥ (b ++ x :: u).length := by rw [hv]; simp; omega
+      simp only [hlen, if_false]
+      rw [← hxu, ih f t (by simpa using hf)]
+      cases a
+      simp [PR.bind]
+
+theorem entries_length {el : List Unit} {bs : Bytes} (h : DList (fun (_ : Unit) => DDictEntry) el bs) :
+    el.length ≤ bs.length :=
+  dlist_length (fun _ b hb => by obtain ⟨t, ht⟩ := entry_head hb; rw [ht]; simp) h
+
+theorem kw_ltlt : strBytes "<<" = [60, 60] := by decide +kernel
+theorem kw_gtgt : strBytes ">>" = [62, 62] := by decide +kernel
+
+/-- `/CIDSystemInfo << … >> def` -/
+theorem pcidSystemInfo_d (m0 sp0 ents m1 m2 : Bytes) (el : List Unit) (hm0 : MS m0) (hsp0 : PS sp0)
+    (hents : DList (fun (_ : Unit) => DDictEntry) el ents) (hm1 : MS1 m1) (hm2 : MS1 m2)
+    (x : UInt8) (r : Bytes) (hx : NonWs x) :
+    pcidSystemInfo (strBytes "/CIDSystemInfo" ++ (m0 ++ (60 :: 60 :: (sp0 ++ (ents ++ (62 :: 62 :: (m1 ++ (strBytes "def" ++ (m2 ++ x :: r)))))))))
+      = .ok () (x :: r) := by
+  have hdict : pdictionary (60 :: 60 :: (sp0 ++ (ents ++ (62 :: 62 :: (m1 ++ (strBytes "def" ++ (m2 ++ x :: r))))))) =
+      .ok () (m1 ++ (strBytes "def" ++ (m2 ++ x :: r))) := by
+    have h1 : ptagS "<<" (60 :: 60 :: (sp0 ++ (ents ++ (62 :: 62 :: (m1 ++ (strBytes "def" ++ (m2 ++ x :: r))))))) =
+        .ok () (sp0 ++ (ents ++ (62 :: 62 :: (m1 ++ (strBytes "def" ++ (m2 ++ x :: r)))))) := by
+      have := ptagS_append "<<" (sp0 ++ (ents ++ (62 :: 62 :: (m1 ++ (strBytes "def" ++ (m2 ++ x :: r))))))
+      rwa [kw_ltlt] at this
+    have h2 : ptagS ">>" (62 :: 62 :: (m1 ++ (strBytes "def" ++ (m2 ++ x :: r)))) = .ok () (m1 ++ (strBytes "def" ++ (m2 ++ x :: r))) := by
+      have := ptagS_append ">>" (m1 ++ (strBytes "def" ++ (m2 ++ x :: r)))
+      rwa [kw_gtgt] at this
+    have hhead : ∃ c u, ents ++ (62 :: 62 :: (m1 ++ (strBytes "def" ++ (m2 ++ x :: r)))) = c :: u ∧ PNonWs c := by
+      cases hents with
+      | nil => exact ⟨62, _, rfl, by unfold PNonWs; decide⟩
+      | cons a as b bs ha _ =>
+        obtain ⟨u, hu⟩ := entry_head ha
+        exact ⟨47, u ++ bs ++ (62 :: 62 :: (m1 ++ (strBytes "def" ++ (m2 ++ x :: r)))), by rw [hu]; simp, by unfold PNonWs; decide⟩
+    obtain ⟨c, u, hcu, hc⟩ := hhead
+    have hl := entries_length hents
+    unfold pdictionary
+    simp only [h1, PR.bind]
+    rw [hcu, pdfSpace_ps sp0 c u hsp0 hc, ← hcu,
+      many0Go_entries hents _ (62 :: (m1 ++ (strBytes "def" ++ (m2 ++ x :: r)))) (by simp only [List.length_append]; omega)]
+    simp only [PR.bind, h2]
+  unfold pcidSystemInfo
+  simp only [pthen, ptagS_append, PR.bind, pms0]
+  rw [ms0_tok m0 _ hm0 ⟨60, _, rfl, nonws_lt⟩]
+  simp only [palt, hdict]
+  rw [pms1_tok m1 _ hm1 (hn_def.append _)]
+  simp only [PR.bind, ptagS_append, pms1_ms1 m2 x r hm2 hx]
+
 theorem meta_head {bs : Bytes} (h : DMeta bs) : ∃ t, bs = 47 :: t := by
   cases h with
+  | cid m0 sp0 ents m1 m2 el _ _ _ _ _ =>
+    exact ⟨(strBytes "/CIDSystemInfo").tail ++ m0 ++ [60, 60] ++ sp0 ++ ents ++ [62, 62] ++ m1 ++ strBytes "def" ++ m2,
+      by rw [kwb_s_CIDSystemInfo]; rfl⟩
   | name w0 nm w1 m _ _ _ _ =>
     exact ⟨(strBytes "/CMapName").tail ++ w0 ++ 47 :: nm ++ w1 ++ strBytes "def" ++ m, by rw [kwb_s_CMapName]; rfl⟩
   | type w0 n w1 m _ _ _ _ =>
@@ -683,6 +914,12 @@ theorem pcmapType_d (w0 n w1 m : Bytes) (hw0 : Blank1 w0) (hn : AllDigitsC n) (h
 theorem pmetaItem_d {bs : Bytes} (h : DMeta bs) (x : UInt8) (r : Bytes) (hx : NonWs x) :
     pmetaItem (bs ++ x :: r) = .ok () (x :: r) := by
   cases h with
+  | cid m0 sp0 ents m1 m2 el hm0 hsp0 hents hm1 hm2 =>
+    have e : strBytes "/CIDSystemInfo" ++ m0 ++ [60, 60] ++ sp0 ++ ents ++ [62, 62] ++ m1 ++ strBytes "def" ++ m2 ++ x :: r =
+        strBytes "/CIDSystemInfo" ++ (m0 ++ (60 :: 60 :: (sp0 ++ (ents ++ (62 :: 62 :: (m1 ++ (strBytes "def" ++ (m2 ++ x :: r)))))))) := by
+      simp
+    rw [e]
+    simp only [pmetaItem, palt, pcidSystemInfo_d m0 sp0 ents m1 m2 el hm0 hsp0 hents hm1 hm2 x r hx]
   | name w0 nm w1 m hw0 hnm hw1 hm =>
     have e : strBytes "/CMapName" ++ w0 ++ 47 :: nm ++ w1 ++ strBytes "def" ++ m ++ x :: r =
         strBytes "/CMapName" ++ (w0 ++ (47 :: (nm ++ (w1 ++ (strBytes "def" ++ (m ++ x :: r)))))) := by simp
